@@ -247,7 +247,7 @@ def cosim_speed(rp, tr: tracer.Tracer, rng: random.Random) -> Any:
     if not isinstance(rn, HaversineRoadNetwork):
         return rp
     rn2 = copy.copy(rn)
-    rn2._AVG_SPEED_KMPH = rng.choice([8, 15, 25, 40, 40, 70])
+    rn2._AVG_SPEED_KMPH = rng.choice([8, 15, 25, 40, 40, 70, 100])
     sim2 = rp.s._replace(road_network=rn2)
     tr.write({"ev": "cosim", "what": "road_network speeds", "speed": rn2._AVG_SPEED_KMPH, "d": tr.proj.advance(sim2, rp.e), "rep": []})
     return rp._replace(s=sim2)
